@@ -97,6 +97,12 @@ impl Monitor for C15 {
         let (src, input, kind) = self.gen(idx);
         let mut base = self.boot.clone();
         base.set_binary_input(Xbitstr::from(input)).expect("input");
+        if idx % 3 != 0 {
+            // an earlier program has run on this interpreter: values are on the stack, a word and a variable exist
+            let _ = base.eval(["11 \"pre\" [ 3 ]", "7", ": earlier 1 + ; 5 var earlier-v 2 3"][(idx % 3) as usize]);
+            let _ = base.read_stdout();
+            obs.count("programs_after_an_earlier_program");
+        }
         let limit = [40_000usize, 3_000, 257, 52][(idx % 4) as usize];
         let _ = base.set_insn_limit(Some(limit));
         let _ = base.set_stack_limit(Some(100_000));
